@@ -226,3 +226,72 @@ def run_scenario(sc, seeds, start_modes=('fresh',)):
             p.destroy()
         out.append(obs)
     return out
+
+
+# ---------------------------------------------------------------------------
+# split tasks: an app's pending evolutions spread over several batches because a migration
+# (or another app's evolution) has to run in-between (the `cut` of Preview.tla)
+
+SPLIT_CONFIGS = [
+    # e3 of app 1 must come after migration (3, 2): batches [e2] [mig] [e3, other app]
+    {'epending': {1: 2, 2: 1}, 'gapplied': {3: 1, 4: 2}, 'decls': [('eam', 1, 3, 3, 2)]},
+    # e2 before the migration, e3 after it
+    {'epending': {1: 2, 2: 0}, 'gapplied': {3: 1, 4: 2}, 'decls': [('ebm', 1, 2, 3, 2), ('eam', 1, 3, 3, 2)]},
+    # both apps split around migrations of both migration apps
+    {'epending': {1: 2, 2: 2}, 'gapplied': {3: 1, 4: 1}, 'decls': [('eam', 1, 3, 3, 2), ('eam', 2, 3, 4, 2)]},
+    # no split (control): app-level declaration only
+    {'epending': {1: 2, 2: 1}, 'gapplied': {3: 1, 4: 2}, 'decls': [('aam', 1, 0, 3, 2)]},
+]
+
+
+def run_split_scenario(idx, seeds):
+    from . import miggraph as M
+    from ..djproj import Project
+    cfg = SPLIT_CONFIGS[idx]
+    ep, ga, decls = cfg['epending'], cfg['gapplied'], cfg['decls']
+    apps = [M.eapp(1), M.eapp(2), M.gapp(3), M.gapp(4)]
+    obs = {'scenario': 'split:%d' % idx, 'start_mode': 'fresh', 'seeds': {}, 'errors': []}
+    p = Project(apps, tag='c14s')
+    try:
+        for a in (1, 2):
+            M.deploy_e(p, a, 1, decls, False)
+        for g in (3, 4):
+            if ga[g] > 0:
+                M.deploy_g(p, g, ga[g], decls, ga)
+        p.set_installed([M.eapp(1), M.eapp(2)] + [M.gapp(g) for g in (3, 4) if ga[g] > 0])
+        r = p.run({'action': 'evolve_api', 'project': False, 'want_signature': False})
+        if r['outcome'] != 'ok':
+            obs['errors'].append(('start', (r.get('error') or {}).get('msg')))
+            return [obs]
+        for a in (1, 2):
+            M.deploy_e(p, a, 1 + ep[a], decls, True)
+        for g in (3, 4):
+            M.deploy_g(p, g, M.GLEN, decls, {3: M.GLEN, 4: M.GLEN})
+        p.set_installed(apps)
+        snap = p.copy_dbs('start')
+        for seed in seeds:
+            so = {}
+            p.restore_dbs(snap)
+            r = p.run({'action': 'command', 'name': 'evolve',
+                       'options': {'compile_sql': True, 'interactive': False},
+                       'fault_anywhere': False, 'project': False, 'want_signature': False}, hashseed=seed)
+            so['preview_outcome'] = r['outcome']
+            so['preview_error'] = (r.get('error') or {}).get('msg') if r['outcome'] != 'ok' else None
+            so['preview_stdout'] = r.get('cmd_stdout', '')
+            so['preview_wrote'] = [e['sql'][:120] for e in r.get('events', []) if e['ev'] == 'stmt']
+            p.restore_dbs(snap)
+            r = p.run({'action': 'command', 'name': 'evolve',
+                       'options': {'execute': True, 'interactive': False},
+                       'fault_anywhere': False, 'sql_limit': 1000000,
+                       'project': False, 'want_signature': False}, hashseed=seed)
+            so['exec_outcome'] = r['outcome']
+            so['exec_error'] = (r.get('error') or {}).get('msg') if r['outcome'] != 'ok' else None
+            so['executed'] = executed_statements(r.get('events', []))
+            so['all_executed'] = [render_statement(e['sql'], e.get('params'))
+                                  for e in r.get('events', []) if e['ev'] == 'stmt']
+            so['hint_outcome'] = so['hint_sql_outcome'] = 'n/a'
+            so['hint_stdout'] = so['hint_sql_stdout'] = ''
+            obs['seeds'][seed] = so
+    finally:
+        p.destroy()
+    return [obs]
